@@ -7,6 +7,7 @@ import Gearpy.Model.Gears
 import Gearpy.Model.Relations
 import Gearpy.Model.Record
 import Gearpy.Model.Snapshot
+import Gearpy.Model.UnitStep
 import Gearpy.Generated.Tables
 /-!
 # driver — line protocol between the Python harness and the executable model
@@ -435,6 +436,28 @@ def handleInterp (ws : List String) : String :=
   | some v => "ok " ++ approxQ (cell v ((kv.q? "f").getD 1))
   | none => "none"
 
+/-! ## unit-level solver arithmetic -/
+
+def handleUStep (ws : List String) : String :=
+  let kv := parseKV ws
+  match kv.get "op" with
+  | "integrate" =>
+    (match parseQty (kv.get "pos"), parseQty (kv.get "speed"), parseQty (kv.get "acc"), parseQty (kv.get "dt") with
+     | some p, some v, some a, some d =>
+       (match integrateU T p v a d with
+        | .ok (p', v') => s!"ok {showQty p'} {showQty v'}"
+        | .error e => s!"err {e.toString}")
+     | _, _, _, _ => "bad-op")
+  | "acc" =>
+    (match parseQty (kv.get "torque"), parseQty (kv.get "inertia") with
+     | some t, some j => showResQ (accelerationU T t j)
+     | _, _ => "bad-op")
+  | "transmit" =>
+    (match parseRat (kv.get "ratio"), parseQty (kv.get "x") with
+     | some r, some x => showResQ (transmitU T r x)
+     | _, _ => "bad-op")
+  | _ => "bad-op"
+
 /-! ## dispatch -/
 
 def handle (line : String) : String :=
@@ -448,6 +471,7 @@ def handle (line : String) : String :=
   | "r" :: rest => handleRel rest
   | "t" :: rest => handleRecord rest
   | "i" :: rest => handleInterp rest
+  | "us" :: rest => handleUStep rest
   | ["ping"] => "pong"
   | _ => "bad-op"
 
